@@ -417,6 +417,10 @@ Fixpoint wire_suffixes (fuel : nat) (w : bytes) : list bytes :=
   end.
 Definition wire_name_suffixes (w : bytes) : list bytes := wire_suffixes (S (length w)) w.
 
+(* the label-level ancestors of a name: the name itself, then each parent, down to the root (no labels) *)
+Fixpoint tails {A} (l : list A) : list (list A) :=
+  l :: match l with [] => [] | _ :: r => tails r end.
+
 Fixpoint first_some {A B} (f : A -> option B) (l : list A) : option B :=
   match l with
   | [] => None
